@@ -55,7 +55,7 @@ def cases(tier, seed):
             yield {"kind": "nan_minibatch", "objective": obj, "strategy": strat, "beta": rnd.choice([0.3, 1.0]), "N": 30, "B": rnd.choice([6, 10]), "seed": rnd.randrange(10**6)}
         for obj, wrapper, T, beta in itertools.product(["VariationalELBO", "PredictiveLogLikelihood"], ["indep", "lmc"], [2, 3], [1.0, 0.3]):
             yield {"kind": "definition_mt", "objective": obj, "wrapper": wrapper, "T": T, "beta": beta, "N": rnd.choice([20, 33]), "B": rnd.choice([1, 5, 9]), "seed": rnd.randrange(10**6)}
-        for strat, q in itertools.product(["VariationalStrategy", "UnwhitenedVariationalStrategy"], ["random", "tinyS", "hugeS", "farmean", "prior", "optimal"]):
+        for strat, q in itertools.product(["VariationalStrategy", "UnwhitenedVariationalStrategy"], ["random", "tinyS", "hugeS", "farmean", "prior", "optimal", "upper_garbage"]):
             yield {"kind": "bound", "strategy": strat, "q": q, "N": rnd.choice([12, 25]), "seed": rnd.randrange(10**6)}
         for strat, b, start in itertools.product(["VariationalStrategy", "UnwhitenedVariationalStrategy"], [[], [3]], ["init", "random"]):
             yield {"kind": "ngd", "strategy": strat, "batch": b, "start": start, "N": 20, "seed": rnd.randrange(10**6)}
@@ -481,6 +481,22 @@ def _bound(case, ctx, g):
         S_u = base * (1e-6 if q == "tinyS" else (1e4 if q == "hugeS" else 1.0))
     _set_qu(m, strat, m_u, S_u, mz, L)
     mll = gpytorch.mlls.VariationalELBO(lik, m, num_data=N)
+    if q == "upper_garbage":
+        # the Cholesky parameter is a full matrix whose strict upper triangle the parameterisation ignores (an optimiser may
+        # have written anything there): same q(u), same objective
+        with torch.no_grad():
+            clean = mll(m(X), y) * N
+            P = m.variational_strategy._variational_distribution.chol_variational_covar
+            P.add_(torch.triu(util.randn(g, *P.shape), diagonal=1) * 0.8)
+            dirty = mll(m(X), y) * N
+            pll = gpytorch.mlls.PredictiveLogLikelihood(lik, m, num_data=N)
+            pd_ = pll(m(X), y)
+            P.sub_(torch.triu(P, diagonal=1))
+            pc_ = pll(m(X), y)
+        ctx.close("objective_matches_definition", dirty, clean, (1e-10, 1e-10), cls="elbo:upper_triangle_of_cholesky_parameter_ignored:" + strat[:6])
+        ctx.close("objective_matches_definition", pd_, pc_, (1e-10, 1e-10), cls="pll:upper_triangle_of_cholesky_parameter_ignored:" + strat[:6])
+        with torch.no_grad():
+            P.add_(torch.triu(util.randn(g, *P.shape), diagonal=1) * 0.8)
     with torch.no_grad():
         elbo = mll(m(X), y) * N
     exact_j, tits_j = bounds["jit"]
